@@ -23,17 +23,45 @@ CHECK_DEADLOCK FALSE
 """
 
 
+def used_object(a, dt):
+    """an AccSignal that already held ANOTHER record of the same length whose durations / cumulative statistics were
+    computed, and was then given `a` (history: results must describe the record the object holds now)"""
+    import warnings
+    import eqsig
+    from eqsig import im
+    n = len(a)
+    other = np.concatenate([np.zeros(n - n // 2), np.asarray(a, dtype=float)[: n // 2][::-1] * 1.7 + 0.3])
+    o = eqsig.AccSignal(other, dt)
+    with warnings.catch_warnings():
+        warnings.simplefilter("ignore")
+        try:
+            im.calc_sig_dur(o)
+            o.generate_cumulative_stats()
+            im.calc_brac_dur(o, 0.1)
+        except Exception:
+            pass
+        if n % 2:
+            o.reset_values(np.array(a, dtype=float))
+        else:
+            o.add_series(np.asarray(a, dtype=float) - o.values)
+    return o
+
+
+HISTORY = {"on": False}
+
+
 def sig(variant, a, dt, lo, hi, se=True):
     """returns (raised, t0, t1) or (raised, dur)"""
     import eqsig
     from eqsig import im
+    mk = (lambda: used_object(a, dt)) if HISTORY["on"] else (lambda: eqsig.AccSignal(a, dt))
     try:
         if variant == "vals":
             r = im.calc_sig_dur_vals(a, dt, start=lo, end=hi, se=se)
         elif variant == "arias":
-            r = im.calc_sig_dur(eqsig.AccSignal(a, dt), start=lo, end=hi, se=se)
+            r = im.calc_sig_dur(mk(), start=lo, end=hi, se=se)
         else:
-            r = im.calc_sig_dur(eqsig.AccSignal(a, dt), start=lo, end=hi, im=im.calc_cav, se=se)
+            r = im.calc_sig_dur(mk(), start=lo, end=hi, im=im.calc_cav, se=se)
     except IndexError:
         return (1, 0.0, 0.0) if se else (1, 0.0)
     return (0, float(r[0]), float(r[1])) if se else (0, float(r))
@@ -68,7 +96,7 @@ def table_row(code, digits):
 def build_traces(path, tier, seed):
     rng = np.random.default_rng(seed + 10)
     recs, meta = [], {}
-    nsig = 45 if tier == "quick" else 300
+    nsig = 60 if tier == "quick" else 360
     nmax = 1500 if tier == "quick" else 5000
     tid = 0
 
@@ -80,6 +108,7 @@ def build_traces(path, tier, seed):
         meta[tid] = m
 
     for i in range(nsig):
+        HISTORY["on"] = (i % 3 == 1)          # every third record goes through an object with a history
         n = gen.length(rng, 2, nmax)
         a, shape = gen.record(rng, n)
         if i % 5 == 0:
@@ -137,6 +166,7 @@ def build_traces(path, tier, seed):
         ns, s0, s1, sd = brac(a * alpha, dt, thr * abs(alpha))
         add({"kind": "rel", "law": "same", "clause": "BracScaleTogether", "dt": enc(dt), "k": 0, "x": enc_seq([none, b0, b1, bd]), "y": enc_seq([ns, s0, s1, sd])},
             {"kind": "rel", "law": "BracScaleTogether", "alpha": alpha, "n": n})
+    HISTORY["on"] = False
     write_ndjson(path, recs)
     return meta
 
